@@ -40,6 +40,13 @@ type violation struct {
 
 func (v *violation) sig() string { return v.Oracle + "/" + v.Kind }
 
+// probe mirrors overlay/zsim.Probe: one self-contained operation and the result a
+// worker's solo pass gave for it.
+type probe struct {
+	Op  json.RawMessage `json:"op"`
+	Res string          `json:"res"`
+}
+
 type history struct {
 	From      uint64 `json:"from"`
 	Stride    uint64 `json:"stride"`
@@ -109,6 +116,7 @@ type summary struct {
 	SiteHits    []uint64          `json:"site_hits"`
 	PairCount   int               `json:"site_pairs"`
 	Samples     []json.RawMessage `json:"samples"`
+	FreshProbes []probe           `json:"fresh_probes,omitempty"`
 	WallMS      int64             `json:"wall_ms"`
 	First       uint64            `json:"first_run"`
 	Last        uint64            `json:"last_run"`
@@ -128,6 +136,7 @@ type workerResult struct {
 	Spec     workerSpec
 	Sum      *summary
 	Runs     []runRec
+	ProbeRes *string // -probe mode: the result computed in this fresh process
 	Viols    []violRec
 	Execs    []violRec
 	Races    []raceReport
@@ -218,6 +227,13 @@ func runWorker(ws workerSpec) *workerResult {
 			var v violRec
 			if err := unmarshalNum(line, &v); err == nil {
 				res.Execs = append(res.Execs, v)
+			}
+		case "probe":
+			var pr struct {
+				Res string `json:"res"`
+			}
+			if json.Unmarshal(line, &pr) == nil {
+				res.ProbeRes = &pr.Res
 			}
 		case "sum":
 			var s summary
